@@ -102,7 +102,8 @@ def specOrswotState (K : List OOp) : OS :=
 def specOrswot (U K : List OOp) : String :=
   if orswotWF U && addClosed U K then
     let s := specOrswotState K
-    showOrswotState s ++ " read=" ++ showNats (s.entries.l.map (·.1))
+    -- the read entry points, computed from the specification state
+    showOrswotState s ++ " " ++ showOrswotReads s
   else ""
 
 def showDsd {ε : Type} : Except ε Unit → String
